@@ -160,6 +160,7 @@ def explore_configs(configs, make_harness, split_depth=4, nproc=None,
                                     yield_at=time.time() + slice_s)
         return i, results, st.as_dict(), left
     acc = {i: ([], Stats()) for i in range(len(configs))}
+    failed = {}          # config index -> first harness error (that configuration is inconclusive)
     key = len(_FN)
     _FN[key] = run
     _FN[key + 1] = roots_of
@@ -167,28 +168,32 @@ def explore_configs(configs, make_harness, split_depth=4, nproc=None,
     try:
         ctx = mp.get_context('fork')
         with ctx.Pool(nproc) as pool:
-            inflight = [pool.apply_async(_worker, ((key + 1, i),)) for i in range(len(configs))]
+            inflight = [(i, pool.apply_async(_worker, ((key + 1, i),))) for i in range(len(configs))]
             tasks = []
-            for h in inflight:
+            for ci, h in inflight:
                 kind, val = h.get()
                 if kind != 'ok':
-                    errors.append((kind, val))
+                    failed.setdefault(ci, val if kind == 'harness' else 'worker exception: ' + val)
                     continue
                 i, roots = val
                 tasks += [(i, [r]) for r in roots]
-            pending = [pool.apply_async(_worker, ((key, t),)) for t in tasks] if not errors else []
+            pending = [(t[0], pool.apply_async(_worker, ((key, t),))) for t in tasks] if not errors else []
             total = 0
             while pending:
-                h = pending.pop(0)
+                ci, h = pending.pop(0)
                 if not h.ready():
-                    pending.append(h)
+                    pending.append((ci, h))
                     h.wait(0.05)
                     continue
                 kind, val = h.get()
                 if kind != 'ok':
-                    errors.append((kind, val))
+                    # this configuration is inconclusive; the others are still explored (a
+                    # violation found elsewhere must not be hidden by an unsupported command here)
+                    failed.setdefault(ci, val if kind == 'harness' else 'worker exception: ' + val)
                     continue
                 i, results, d, left = val
+                if i in failed:
+                    continue
                 acc[i][0].extend(results)
                 s = Stats()
                 s.__dict__.update(d)
@@ -201,7 +206,7 @@ def explore_configs(configs, make_harness, split_depth=4, nproc=None,
                     # hand the unexplored prefixes back, a few per task
                     k = max(1, len(left) // 4)
                     for j in range(0, len(left), k):
-                        pending.append(pool.apply_async(_worker, ((key, (i, left[j:j + k])),)))
+                        pending.append((i, pool.apply_async(_worker, ((key, (i, left[j:j + k])),))))
             if errors:
                 pool.terminate()
     finally:
@@ -210,4 +215,16 @@ def explore_configs(configs, make_harness, split_depth=4, nproc=None,
     if errors:
         kind, val = errors[0]
         raise HarnessError(val if kind == 'harness' else 'worker exception: ' + val)
+    for i, msg in failed.items():
+        acc[i] = ([], Stats())
+        CONFIG_ERRORS.append((i, msg))
     return acc
+
+
+CONFIG_ERRORS = []      # (config index, message) of the last explore_configs call
+
+
+def pop_config_errors():
+    out = list(CONFIG_ERRORS)
+    del CONFIG_ERRORS[:]
+    return out
